@@ -5,6 +5,8 @@ import (
 	"encoding/json"
 	"fmt"
 	"os"
+	"os/exec"
+	"path/filepath"
 	"reflect"
 	"strings"
 	"testing"
@@ -618,6 +620,69 @@ func TestC13(t *testing.T) {
 		st.Record(c, tagged > 0, "package-leg", fmt.Sprintf("override-blocks:%d", len(ov)))
 		st.Report(rt, map[string]any{"package_case": c}, checkC13Packages(c))
 	})
+	// (2c) the command-line tool builds the effective settings of the format it ends up using, however the packager was determined
+	if bin := nfpmBinary(); bin != "" {
+		ncli := 0
+		for _, f := range []string{"deb", "rpm", "apk", "ipk", "archlinux"} {
+			for _, passP := range []bool{true, false} {
+				if !passP && f == "archlinux" {
+					continue // ".zst" names no packager
+				}
+				c := metaBaseCase()
+				c.Meta = Meta{Name: "ovcli", Arch: "amd64", Version: "1.0.0", Maintainer: "V <v@example.com>", Description: "d", Depends: []string{"base-dep"}}
+				ov := map[string]any{}
+				for _, g := range AllFormats {
+					ov[g] = map[string]any{"depends": []any{"dep-for-" + g}, "scripts": map[string]any{}}
+				}
+				c.Extra = map[string]any{"overrides": ov}
+				var vs vlist
+				err := c.withRoot(func(root string) error {
+					cfgPath := filepath.Join(root, "nfpm.yaml")
+					if err := os.WriteFile(cfgPath, c.YAMLFor(root, f), 0o644); err != nil {
+						return err
+					}
+					target := filepath.Join(root, "out"+extOf[f])
+					args := []string{"package", "-f", cfgPath, "-t", target}
+					if passP {
+						args = append(args, "-p", f)
+					}
+					cmd := exec.Command(bin, args...)
+					cmd.Dir = root
+					if out, err := cmd.CombinedOutput(); err != nil {
+						vs.add("C13.cli.failed", f, "nfpm %v: %v: %s", args[3:], err, out)
+						return nil
+					}
+					b, err := os.ReadFile(target)
+					if err != nil {
+						vs.add("C13.cli.failed", f, "no package at %s", target)
+						return nil
+					}
+					d, err := Decode(f, b)
+					if d == nil {
+						vs.add("C13.cli.decode", f, "%v", err)
+						return nil
+					}
+					dm, err := decodeMeta(f, d)
+					if err != nil {
+						return nil
+					}
+					if got := dm.Rel["depends"]; !eqStrings(got, []string{"dep-for-" + f}) {
+						vs.add("C13.cli.override-not-applied", f, "nfpm %v: the package depends on %q, the override block for %s says %q", args[3:], got, f, []string{"dep-for-" + f})
+					}
+					return nil
+				})
+				if err != nil {
+					t.Fatal(err)
+				}
+				st.Record(map[string]any{"cli-override": f, "pass_p": passP}, true, "cli-override")
+				ncli++
+				st.Report(t, map[string]any{"package_case": c}, vs)
+			}
+		}
+		st.Exhaustive["CLI: format x packager given/guessed with an override block"] = ncli
+	} else {
+		st.Note("VERIF_NFPM not set: the command-line leg was skipped")
+	}
 	// (3) validation rejects override blocks for unknown packagers, accepts known ones
 	vkeys := []string{"deb", "rpm", "apk", "archlinux", "ipk", "foo", "DEB", "pacman", "", "msi", "dep", "aab", "zzz"}
 	nval := 0
